@@ -51,6 +51,7 @@ func init() {
 		"(reflect.Value).NumField":      ext۰reflect۰Value۰NumField,
 		"(reflect.Value).NumMethod":     ext۰reflect۰Value۰NumMethod,
 		"(reflect.Value).Pointer":       ext۰reflect۰Value۰Pointer,
+		"(reflect.Value).UnsafeAddr":    ext۰reflect۰Value۰UnsafeAddr,
 		"(reflect.Value).Set":           ext۰reflect۰Value۰Set,
 		"(reflect.Value).SetInt":        ext۰reflect۰Value۰SetInt,
 		"(reflect.Value).SetUint":       ext۰reflect۰Value۰SetUint,
